@@ -76,14 +76,6 @@ theorem gen_unicode : Gen.lowerToE = [] ∧ Gen.digitZeros.head? = some 48
 
 /-! ## Chains -/
 
-theorem firstFailure_ok_iff (env : Env) (cs : List Constraint) (v : PyVal) :
-    firstFailure env cs v = .ok ↔ ∀ c ∈ cs, c.eval env v = .ok := by
-  induction cs with
-  | nil => simp [firstFailure]
-  | cons c cs ih =>
-    simp only [firstFailure, List.mem_cons, forall_eq_or_imp]
-    cases h : c.eval env v <;> simp [ih]
-
 /-- **C08_chain_iff.** A chain accepts a value exactly when it declares no conflict and every member
 accepts the value on its own (any length, any member kinds). -/
 theorem C08_chain_iff (env : Env) (cs : List Constraint) (v : PyVal) :
@@ -147,7 +139,7 @@ theorem C08_chain_spec_partial (env : Env) (cs : List Constraint) (v : PyVal)
 /-- REQ: non-empty (not None, not the empty string). -/
 theorem C08_req (env : Env) (v : PyVal) : eval env .req v = .ok ↔ Spec.means env .req v := by
   cases v with
-  | str s => cases s <;> simp [eval, evalReq, Spec.means, Spec.NonEmpty, pyEq, num?]
+  | str s => cases s <;> simp [eval, evalReq, Spec.means, Spec.NonEmpty, pyEq]
   | _ => simp [eval, evalReq, Spec.means, Spec.NonEmpty, pyEq, num?]
 
 example : eval env0 .req (.str []) = .fail "E003" ∧ eval env0 .req .null = .fail "E003" ∧ eval env0 .req (.int 0) = .ok := by decide
@@ -168,7 +160,7 @@ example : eval env0 (.const (.int 1)) (.float "1.0".toList (.fin 1)) = .ok ∧ e
 theorem C08_enum (env : Env) (a : List Str) (v : PyVal) : eval env (.enum a) v = .ok ↔ Spec.means env (.enum a) v := by
   simp only [eval, evalEnum, Spec.means, Spec.EnumAccepts, filter_length_eq_countP]
   by_cases hm : a.contains v.pyStr = true
-  · simp [hm, List.contains_iff_mem.1 hm]
+  · simp [List.contains_iff_mem.1 hm]
   · have hn : v.pyStr ∉ a := fun h => hm (List.contains_iff_mem.2 h)
     simp only [hm, Bool.false_eq_true, ↓reduceIte, hn, false_or]
     generalize Spec.prefixMatches a v.pyStr = n
@@ -179,7 +171,7 @@ theorem C08_enum_ambiguous (env : Env) (a : List Str) (v : PyVal) :
     eval env (.enum a) v = .fail "E006" ↔ Spec.EnumAmbiguous a (pyStr v) := by
   simp only [eval, evalEnum, Spec.EnumAmbiguous, filter_length_eq_countP]
   by_cases hm : a.contains v.pyStr = true
-  · simp [hm, List.contains_iff_mem.1 hm]
+  · simp [List.contains_iff_mem.1 hm]
   · have hn : v.pyStr ∉ a := fun h => hm (List.contains_iff_mem.2 h)
     simp only [hm, Bool.false_eq_true, ↓reduceIte, hn, not_false_eq_true, true_and]
     generalize Spec.prefixMatches a v.pyStr = n
@@ -236,9 +228,9 @@ theorem C08_regex (env : Env) (p : Str) (v : PyVal) : eval env (.regex p) v = .o
 theorem C08_dir (env : Env) (v : PyVal) : eval env .dir v = .ok ↔ Spec.means env .dir v := by
   simp only [eval, evalDir, Spec.means]
   by_cases h : v.pyStr.contains '\x00' = true
-  · simp [h, List.contains_iff_mem.1 h]
+  · simp [List.contains_iff_mem.1 h]
   · have : '\x00' ∉ v.pyStr := fun hm => h (List.contains_iff_mem.2 hm)
-    simp [h, this]
+    simp [this]
 
 /-- APPEND_ONLY: lists only. -/
 theorem C08_appendOnly (env : Env) (v : PyVal) : eval env .appendOnly v = .ok ↔ Spec.means env .appendOnly v := by
@@ -369,10 +361,6 @@ theorem C08_iso8601_dates (env : Env) (v : PyVal) (h : Spec.means env .date v) :
   have hz : replaceZ v.pyStr = v.pyStr := replaceZ_of_isDateText _ h
   simp [eval, evalIso8601, hz, hacc.2]
 
-theorem evalIso_str (env : Env) (x : Str) (h : Iso.fromIso (replaceZ x) = true) : eval env .iso8601 (.str x) = .ok := by
-  show (if Iso.fromIso (replaceZ x) then Verdict.ok else Verdict.fail "E015") = Verdict.ok
-  rw [h]; rfl
-
 /-- **C08_iso8601_documented.** The datetime forms the docstring documents — `YYYY-MM-DDTHH:MM:SS`, the same with `Z`,
 the same with `±HH:MM` — are accepted whenever their fields name a real date, a time of day and an offset below 24 h. -/
 theorem C08_iso8601_documented (env : Env) (t : DT) (hd : t.digits) (hv : t.valid) :
@@ -409,6 +397,52 @@ theorem C08_lang (env : Env) (tag : Str) (v : PyVal) : eval env (.lang tag) v = 
 
 example : eval env0 (.lang "python".toList) (.zone [] (some "Python".toList) []) = .ok
     ∧ eval env0 (.lang "python".toList) (.zone [] none []) = .fail "E007" := by decide
+
+/-! ## Members and chains against the spec, all kinds at once -/
+
+/-- the only member kind whose theorem carries a guard is RANGE -/
+def MemberGuard (c : Constraint) (v : PyVal) : Prop :=
+  match c with
+  | .range lo hi => RangeGuard lo hi v
+  | _ => True
+
+/-- **C08_member_spec_partial.** Every kind: `evaluate` accepts exactly when the documented meaning holds
+(RANGE under `RangeGuard`, see F19/F36). -/
+theorem C08_member_spec_partial (env : Env) (c : Constraint) (v : PyVal) (hg : MemberGuard c v) :
+    c.eval env v = .ok ↔ Spec.means env c v := by
+  cases c with
+  | req => exact C08_req env v
+  | opt => exact C08_opt env v
+  | const x => exact C08_const env x v
+  | enum a => exact C08_enum env a v
+  | type t => exact C08_type env t v
+  | regex p => exact C08_regex env p v
+  | dir => exact C08_dir env v
+  | appendOnly => exact C08_appendOnly env v
+  | range lo hi => exact C08_range_partial env lo hi v hg
+  | maxLength n => exact C08_maxLength env n v
+  | minLength n => exact C08_minLength env n v
+  | date => exact C08_date env v
+  | iso8601 => exact C08_iso8601 env v
+  | literal => exact C08_literal env v
+  | lang t => exact C08_lang env t v
+
+/-- **C08_chain_spec.** For every chain of every length and kind mix: the implementation's verdict is the documented
+one — no declared conflict and every member's documented meaning holds — under the RANGE guard of its RANGE members. -/
+theorem C08_chain_spec (env : Env) (cs : List Constraint) (v : PyVal) (hg : ∀ c ∈ cs, MemberGuard c v) :
+    chainValid env cs v = true ↔ Spec.chainAccepts env cs v :=
+  C08_chain_spec_partial env cs v (fun c hc => C08_member_spec_partial env c v (hg c hc))
+
+example : chainValid env0 [.req, .enum enum3, r15, .maxLength 6] (.str "D".toList) = true
+    ↔ Spec.chainAccepts env0 [.req, .enum enum3, r15, .maxLength 6] (.str "D".toList) := by
+  apply C08_chain_spec
+  intro c hc
+  simp only [List.mem_cons, List.not_mem_nil, or_false] at hc
+  rcases hc with rfl | rfl | rfl | rfl
+  · trivial
+  · trivial
+  · exact ⟨by decide, by decide, fun _ => by decide, by intro i h; cases h⟩
+  · trivial
 
 /-! ## Document level (`Validator._validate_section`, `_validate_unknown_fields`)
 
@@ -493,6 +527,19 @@ example : validateSection env0 "S".toList exChildren "WARN".toList exFields = .e
     [⟨"W001", "S.EXTRA".toList, "warning"⟩, ⟨"E003", "S.NAME".toList, "error"⟩, ⟨"E011", "S.AGE".toList, "error"⟩] := by decide
 example : validateSection env0 "S".toList exChildren "IGNORE".toList exFields = .errors
     [⟨"E003", "S.NAME".toList, "error"⟩, ⟨"E011", "S.AGE".toList, "error"⟩] := by decide
+/-- the document-level theorems applied to that instance (hypotheses discharged by evaluation) -/
+def exRejectOut : List VErr := [⟨"E007", "S.EXTRA".toList, "error"⟩, ⟨"E003", "S.NAME".toList, "error"⟩, ⟨"E011", "S.AGE".toList, "error"⟩]
+def exWarnOut : List VErr := [⟨"W001", "S.EXTRA".toList, "warning"⟩, ⟨"E003", "S.NAME".toList, "error"⟩, ⟨"E011", "S.AGE".toList, "error"⟩]
+def exIgnoreOut : List VErr := [⟨"E003", "S.NAME".toList, "error"⟩, ⟨"E011", "S.AGE".toList, "error"⟩]
+example : (⟨"E003", fieldPath "S".toList "NAME".toList, "error"⟩ : VErr) ∈ exRejectOut :=
+  C08_missing_required env0 "S".toList exChildren "REJECT".toList exFields exRejectOut (by decide) "NAME".toList [.req, .enum enum3]
+    (by unfold exFields; exact List.mem_cons_self) ⟨.req, List.mem_cons_self, trivial⟩ (Or.inl rfl)
+example : (⟨"E007", fieldPath "S".toList "EXTRA".toList, "error"⟩ : VErr) ∈ exRejectOut :=
+  C08_unknown_reject env0 "S".toList exChildren "REJECT".toList exFields exRejectOut (by decide) (by decide) "EXTRA".toList (by decide) (by decide)
+example := C08_unknown_warn env0 "S".toList exChildren "WARN".toList exFields exWarnOut (by decide) (by decide) "EXTRA".toList (by decide) (by decide)
+example := C08_unknown_ignore env0 "S".toList exChildren "IGNORE".toList exFields exIgnoreOut (by decide) (by decide) "EXTRA".toList (by decide)
+example := C08_field_verdict env0 "S".toList exChildren "AGE".toList [.opt, r15] (.int 9) rfl rfl ["E011"] (by decide)
+
 example : policyOf "BOGUS".toList = .reject ∧ policyOf "WARN".toList = .warn ∧ policyOf "IGNORE".toList = .ignore := by decide
 
 end Octave.C08
